@@ -43,7 +43,7 @@ func C18(c *core.Ctx) error {
 	names := []string{c18pkg, "~", "null", "true", "123", "1.5", "a-b", "a.b/c", "a_b", "github.com/Foo/Bar", "x/" + strings.Repeat("long", 80),
 		"a: b", "#x", "- x", "-x", "\"q\"", "'", "{a}", "[a]", "*a", "&a", "!t", "%", "@", "|", ">", " lead", "trail ", "a\nb", "yes", "0x1f", "1e3", "a#b", "a:b", "ünï", "a\tb", "?", "<<", "=", "null/x", "~/x", "a,b", "`a`", ".", "..", "a/../b", "", "example.com/m/a|b", "x|y|z", "a.b.c", "packages", "config|all"}
 	states := []string{"absent", "empty", "content", "dir", "symlink", "symlink-live-parent", "noparent"}
-	targets := []string{"default", "relative", "nested", "absolute"}
+	targets := []string{"default", "relative", "nested", "absolute", "tilde", "tilde-dir"} // the last two: literal paths that merely start with ~
 	var cases []c18case
 	seen := map[string]bool{}
 	add := func(cs c18case) {
@@ -135,6 +135,12 @@ func C18(c *core.Ctx) error {
 		case "absolute":
 			target = filepath.Join(root, "abs", "m.yml")
 			args = []string{"--config", target}
+		case "tilde":
+			target = filepath.Join(root, "~mockery.yml")
+			args = []string{"--config", "~mockery.yml"}
+		case "tilde-dir":
+			target = filepath.Join(root, "~", "mockery.yml")
+			args = []string{"--config", "~/mockery.yml"}
 		}
 		if cs.state != "noparent" {
 			os.MkdirAll(filepath.Dir(target), 0o755)
@@ -165,8 +171,17 @@ func C18(c *core.Ctx) error {
 		if cs.env != "" {
 			initEnv = []string{cs.env}
 		}
+		// a private HOME (outside the snapshotted tree: tool caches may appear there): no configuration file may
+		home := filepath.Join(c.Scratch, "home", fmt.Sprint(i))
+		os.MkdirAll(home, 0o755)
+		defer os.RemoveAll(home)
+		initEnv = append(initEnv, "HOME="+home)
 		r := core.Run(root, core.UserEnv(initEnv...), time.Minute, "", c.Mockery, cmd...)
 		after := core.Snapshot(root)
+		if strayHome, _ := filepath.Glob(filepath.Join(home, "*.y*ml")); len(strayHome) > 0 {
+			c.Report("wrote-into-home:"+id, fmt.Sprintf("init wrote %v under $HOME; the target path was %s", strayHome, target), map[string]any{"case": id, "cmd": cmd})
+			return
+		}
 		c.Ev.Add("transitions", 1)
 		c.Ev.Add("evaluations", 1)
 		c.Ev.Distinct("states", id)
